@@ -685,21 +685,23 @@ def c20_stream_rows(ctx):
     q = ctx.tier == 'quick'
     r = assume_model(ctx, 'CxxStreamModel', {'EMIT': 'TRUE', 'Variant': '"ok"', 'L': 3 if q else 4}, timeout=3000)
     ctx.model_must_hold(r, what='(operator<< path of cxx/os*.cc + printf/doprnti.c = layout of the C++ standard; istream field = number of the C-level grammar)')
-    rows = []; nos = nis = 0
+    rows = []; nos = nis = nfs = 0
     for l in r['out'].splitlines():
         l = l.strip()
         m = re.match(r'<<"OS", "(\w+)", "(\w+)", (TRUE|FALSE), (TRUE|FALSE), (TRUE|FALSE), (\d+), "(.)", "(-?[0-9a-f]+)">>$', l)
-        if m: rows.append('OS\t' + '\t'.join(m.groups())); nos += 1; continue
+        if m: rows.append('OS\t' + '\t'.join(m.groups()) + ('\t1' if not q or nos % 3 == 0 else '\t0')); nos += 1; continue      # quick: mpq_class on every third row
         m = re.match(r'<<"IS", "(\w+)", (TRUE|FALSE), (".*")>>$', l)
-        if m: rows.append('IS\t' + '\t'.join(m.groups())); nis += 1
-    want = re.search(r'<<"CxxStreamModel", (\d+), (\d+)>>', r['out'])
-    if not want or (int(want.group(1)), int(want.group(2))) != (nos, nis):
-        raise Machinery(f'CxxStreamModel: {nos}+{nis} rows parsed from the TLC output, the model reports {want.groups() if want else "?"}')
-    need(nos, 20000, 'C20 ostream rows'); need(nis, 20000, 'C20 istream rows')
+        if m: rows.append('IS\t' + '\t'.join(m.groups())); nis += 1; continue
+        m = re.match(r'<<"FS", (TRUE|FALSE), (".*")>>$', l)
+        if m: rows.append('FS\t' + '\t'.join(m.groups())); nfs += 1
+    want = re.search(r'<<"CxxStreamModel", (\d+), (\d+), (\d+)>>', r['out'])
+    if not want or tuple(int(x) for x in want.groups()) != (nos, nis, nfs):
+        raise Machinery(f'CxxStreamModel: {nos}+{nis}+{nfs} rows parsed from the TLC output, the model reports {want.groups() if want else "?"}')
+    need(nos, 20000, 'C20 ostream rows'); need(nis, 20000, 'C20 istream rows'); need(nfs, 2000, 'C20 mpf istream rows')
     for mm in ctx.models:
-        if mm['name'] == 'CxxStreamModel': mm['states'] = max(mm['states'], nos + nis); mm['transitions'] = mm['states']
+        if mm['name'] == 'CxxStreamModel': mm['states'] = max(mm['states'], nos + nis + nfs); mm['transitions'] = mm['states']
     p = os.path.join(ctx.scratch, 'stream.rows'); open(p, 'w').write('\n'.join(rows) + '\n')
-    ctx.notes.append(f'stream rows enumerated by TLC: {nos} insertion states x values, {nis} extraction inputs x states')
+    ctx.notes.append(f'stream rows enumerated by TLC: {nos} insertion states x values, {nis} integer extraction inputs x states, {nfs} float extraction inputs')
     return p
 
 
